@@ -431,3 +431,220 @@ pub fn best_of_exec(t: &Tbl, q: &mut [u8; 13], flush: bool, n: i64) -> (r: i64)
     }
     acc
 }
+
+pub fn rank_of_code(c: u8) -> (r: Rank)
+    requires c < 13,
+    ensures rank_code(r) == c,
+{
+    match c {
+        0 => Rank::Ace, 1 => Rank::King, 2 => Rank::Queen, 3 => Rank::Jack, 4 => Rank::Ten, 5 => Rank::Nine,
+        6 => Rank::Eight, 7 => Rank::Seven, 8 => Rank::Six, 9 => Rank::Five, 10 => Rank::Four, 11 => Rank::Trey,
+        _ => Rank::Deuce,
+    }
+}
+
+/// twin of hash_spec; calls the *real* dp_ref
+pub fn h_exec(q: &[u8; 13]) -> (r: i64)
+    requires vec_ok(q@, 4),
+    ensures r == hash_spec(q@), 0 <= r,
+{
+    let mut r: i64 = 12;
+    let mut rem: i64 = 7;
+    let mut acc: i64 = 0;
+    while r >= 0
+        invariant -1 <= r <= 12, 1 <= rem <= 7, vec_ok(q@, 4), 0 <= acc <= (12 - r) * 65535,
+            acc + h_rec(q@, r as int, rem as int) == hash_spec(q@),
+        decreases r + 1
+    {
+        let len = q[r as usize];
+        assert(0 <= q@[r as int] <= 4);
+        if len == 0 {
+            r = r - 1;
+            continue;
+        }
+        let rank = rank_of_code(r as u8);
+        let d = dp_ref(len, &rank, rem as u8);
+        acc = acc + d as i64;
+        rem = rem - len as i64;
+        if rem <= 0 {
+            return acc;
+        }
+        r = r - 1;
+    }
+    acc
+}
+
+pub fn mask_exec(f: &[u8; 13]) -> (r: i64)
+    ensures r == mask_val(f@, 0), 0 <= r <= 13 * 255 * 4096,
+{
+    let mut i: usize = 13;
+    let mut acc: i64 = 0;
+    let mut p: i64 = 1;
+    proof { lemma_pow2_13(); }
+    while i > 0
+        invariant 0 <= i <= 13, acc == mask_val(f@, i as int), 0 <= acc <= (13 - i) * 255 * 4096,
+            i > 0 ==> p == pow2(12 - (i as int - 1)), 1 <= p <= 4096,
+        decreases i
+    {
+        i -= 1;
+        proof { lemma_pow2_mono(12 - i as int, 12); lemma_pow2_13(); }
+        assert(f@[i as int] as int * p <= 255 * 4096) by (nonlinear_arith) requires 0 <= f@[i as int] <= 255, 1 <= p <= 4096;
+        assert(f@[i as int] as int * p >= 0) by (nonlinear_arith) requires 0 <= f@[i as int] <= 255, 1 <= p <= 4096;
+        acc = acc + (f[i] as i64) * p;
+        if i > 0 {
+            proof { lemma_pow2_mono(12 - (i as int - 1), 12); }
+            p = p * 2;
+        }
+    }
+    acc
+}
+
+pub fn leaf_check(t: &Tbl, q: &mut [u8; 13], kind: u8) -> (ok: bool)
+    requires tbl_ok(t), kind <= 3, vec_ok(old(q)@, kind_cap(kind as int)),
+    ensures final(q)@ == old(q)@, ok ==> leaf_ok(old(q)@, kind as int),
+{
+    let n = vsum_exec(q);
+    if kind == 0 {
+        if n != 7 { return true; }
+        let h = h_exec(q);
+        if h < 0 || h >= 49205 { return false; }
+        let b = best_of_exec(t, q, false, 7);
+        AS_RAINBOW[h as usize] as i64 == b && 11 <= b && b <= 7462
+    } else if kind == 1 {
+        if n < 5 || n > 7 { return true; }
+        let m = mask_exec(q);
+        if m < 0 || m >= 8192 { return false; }
+        let b = best_of_exec(t, q, true, n);
+        AS_FLUSH[m as usize] as i64 == b && 1 <= b && b <= 1599
+    } else {
+        if n != 5 { return true; }
+        let flush = kind == 3;
+        let c = class5_exec(t, q, flush);
+        1 <= c && c <= 7462 && category_exec(c) == pattern_cat_exec(q, flush)
+    }
+}
+
+/// candidates below a fixed prefix
+pub open spec fn cand(v: Seq<u8>, pre: Seq<u8>, pos: int, rem: int, cap: int) -> bool {
+    vec_ok(v, cap) && vsum(v, pos) == rem && forall|k: int| 0 <= k < pos ==> v[k] == pre[k]
+}
+
+/// exhaustive walk over all vectors with the given prefix q[0..pos] whose remaining entries sum to rem
+#[verifier::loop_isolation(false)]
+pub fn walk(t: &Tbl, q: &mut [u8; 13], pos: usize, rem: i64, kind: u8, fail: &mut Vec<u8>) -> (ok: bool)
+    requires tbl_ok(t), pos <= 13, 0 <= rem <= 7, kind <= 3,
+        forall|k: int| 0 <= k < pos ==> 0 <= #[trigger] old(q)@[k] <= kind_cap(kind as int),
+    ensures
+        forall|k: int| 0 <= k < pos ==> #[trigger] final(q)@[k] == old(q)@[k],
+        ok ==> forall|v: Seq<u8>| #[trigger] cand(v, old(q)@, pos as int, rem as int, kind_cap(kind as int)) ==> leaf_ok(v, kind as int),
+    decreases 13 - pos
+{
+    let ghost q0 = q@;
+    let ghost cap = kind_cap(kind as int);
+    if pos == 13 {
+        if rem != 0 {
+            return true;
+        }
+        proof {
+            assert forall|v: Seq<u8>| #[trigger] cand(v, q0, 13, 0, cap) implies v == q0 by { assert(v =~= q0); }
+        }
+        let ok = leaf_check(t, q, kind);
+        if !ok && fail.len() == 0 {
+            let mut i: usize = 0;
+            while i < 13 invariant 0 <= i <= 13 decreases 13 - i { fail.push(q[i]); i += 1; }
+            fail.push(kind);
+        }
+        return ok;
+    }
+    let capx: i64 = if kind == 0 || kind == 2 { 4 } else { 1 };
+    let mut c: i64 = 0;
+    while c <= capx && c <= rem
+        invariant 0 <= c <= 5, capx == cap, 1 <= capx <= 4, pos < 13, q0.len() == 13, 0 <= rem <= 7, kind <= 3, tbl_ok(t),
+            forall|k: int| 0 <= k < pos ==> #[trigger] q@[k] == q0[k],
+            forall|k: int| 0 <= k < pos ==> 0 <= #[trigger] q0[k] <= cap,
+            cap == kind_cap(kind as int),
+            forall|v: Seq<u8>| #[trigger] cand(v, q0, pos as int, rem as int, cap) && v[pos as int] < c ==> leaf_ok(v, kind as int),
+        decreases 6 - c
+    {
+        let ghost qprev = q@;
+        q[pos] = c as u8;
+        let ghost q1 = q@;
+        proof {
+            assert forall|k: int| 0 <= k < pos implies #[trigger] q1[k] == q0[k] by { assert(q1[k] == qprev[k]); }
+        }
+        let sub = walk(t, q, pos + 1, rem - c, kind, fail);
+        proof {
+            assert forall|k: int| 0 <= k < pos implies #[trigger] q@[k] == q0[k] by { assert(q@[k] == q1[k]); }
+        }
+        if !sub {
+            return false;
+        }
+        proof {
+            assert forall|v: Seq<u8>| #[trigger] cand(v, q0, pos as int, rem as int, cap) && v[pos as int] < c + 1 implies leaf_ok(v, kind as int) by {
+                if v[pos as int] == c {
+                    assert(cand(v, q1, pos as int + 1, rem as int - c as int, cap));
+                }
+            }
+        }
+        c = c + 1;
+    }
+    proof {
+        assert forall|v: Seq<u8>| #[trigger] cand(v, q0, pos as int, rem as int, cap) implies leaf_ok(v, kind as int) by {
+            lemma_vsum_bounds(v, pos as int + 1, cap);
+            assert(0 <= v[pos as int] <= cap);
+            assert(cap * (13 - (pos as int + 1)) >= 0) by (nonlinear_arith) requires cap >= 0, pos < 13;
+            assert(v[pos as int] <= rem);
+            assert(v[pos as int] < c);
+        }
+    }
+    true
+}
+
+pub fn check_kind(t: &Tbl, kind: u8, total: i64, fail: &mut Vec<u8>) -> (ok: bool)
+    requires tbl_ok(t), kind <= 3, 0 <= total <= 7,
+    ensures ok ==> forall|v: Seq<u8>| vec_ok(v, kind_cap(kind as int)) && vsum(v, 0) == total ==> #[trigger] leaf_ok(v, kind as int),
+{
+    let mut q: [u8; 13] = [0; 13];
+    let ghost q0 = q@;
+    let ok = walk(t, &mut q, 0, total, kind, fail);
+    proof {
+        if ok {
+            assert forall|v: Seq<u8>| vec_ok(v, kind_cap(kind as int)) && vsum(v, 0) == total implies #[trigger] leaf_ok(v, kind as int) by {
+                assert(cand(v, q0, 0, total as int, kind_cap(kind as int)));
+            }
+        }
+    }
+    ok
+}
+
+/// (tables, classes): true ==> the corresponding premise holds
+pub fn check_all(fail: &mut Vec<u8>) -> (r: (bool, bool))
+    ensures r.0 ==> tables_ok(), r.1 ==> classes_ok(),
+{
+    let t = build_tbl();
+    let a = check_kind(&t, 0, 7, fail);
+    let b5 = check_kind(&t, 1, 5, fail);
+    let b6 = check_kind(&t, 1, 6, fail);
+    let b7 = check_kind(&t, 1, 7, fail);
+    let c = check_kind(&t, 2, 5, fail);
+    let d = check_kind(&t, 3, 5, fail);
+    proof {
+        if a && b5 && b6 && b7 {
+            assert forall|q: Seq<u8>| vec_ok(q, 4) && vsum(q, 0) == 7 implies #[trigger] rainbow_slot_ok(q) by {
+                assert(leaf_ok(q, 0));
+            }
+            assert forall|f: Seq<u8>| vec_ok(f, 1) && 5 <= vsum(f, 0) <= 7 implies #[trigger] flush_slot_ok(f) by {
+                assert(leaf_ok(f, 1));
+            }
+        }
+        if c && d {
+            assert forall|q: Seq<u8>| vec_ok(q, 4) && vsum(q, 0) == 5 implies #[trigger] class5_slot_ok(q, false) by {
+                assert(leaf_ok(q, 2));
+            }
+            assert forall|f: Seq<u8>| vec_ok(f, 1) && vsum(f, 0) == 5 implies #[trigger] class5_slot_ok(f, true) by {
+                assert(leaf_ok(f, 3));
+            }
+        }
+    }
+    (a && b5 && b6 && b7, c && d)
+}
